@@ -142,7 +142,9 @@ func genScenario(rt *rapid.T, p Profile) Scenario {
 					flapAfter = false
 				}
 			} else if flapAfter {
-				sc.Actions = append(sc.Actions, Action{Kind: kind, Target: t, Idle: true})
+				// mostly at the first request of the re-synchronisation, sometimes after one or two have gone through
+				skip := []int{0, 0, 1, 1, 2}[rapid.IntRange(0, 4).Draw(rt, "fisskip")]
+				sc.Actions = append(sc.Actions, Action{Kind: kind, Target: t, Idle: true, Skip: skip})
 			}
 			if !flapAfter {
 				// nothing more to arrange
